@@ -53,6 +53,8 @@ class _OffsetParseBucket(_ParseBucket[Offset]):
         )
         if self._is_negative:
             seconds = -seconds
+        if not (Offset.min_value.seconds <= seconds <= Offset.max_value.seconds):
+            return ParseResult[Offset]._invalid_offset(value)
         return ParseResult[Offset].for_value(Offset.from_seconds(seconds))
 
 
